@@ -7,6 +7,7 @@ import (
 	"math/big"
 	"sort"
 	"testing"
+	"time"
 
 	"github.com/peterstace/simplefeatures/rtree"
 	"pgregory.net/rapid"
@@ -497,11 +498,12 @@ func c11Enumerate(cx *h.Ctx, yield func(C11Case)) []string {
 
 func TestC11(t *testing.T) {
 	h.Run(t, h.Prop[C11Case]{
-		ID:          "C11",
-		Rule:        "cases = a multiset of boxes bulk-loaded into an R-tree plus 1..8 queries (range/priority/nearest, with a scripted callback that returns nil/Stop/Stop wrapped by %w, by two %w verbs or by errors.Join/custom error at visit k), oracle = linear scan with exact rational box distances (order compared up to 1e-13 relative, the rounding of a float64 squared distance); generated by (a) exhaustive enumeration of sizes 0..40 x 8 layouts x query boxes x every stop position and (b) rapid draws of sizes 0..300 (thorough 0..5000) over 7 layouts x 3 coordinate classes, a third of them mapped to non-dyadic ordinates by one monotone v*s+o; non-trivial = >= 9 items (tree depth >= 2) and, for range queries, >= 2 matching records or a stop with matches remaining; distinct = distinct case hashes",
-		Assumptions: []string{"linear-scan oracle and math/big rational distances are correct", "rtree.VerifCheck hook (build tag verif) reports structural invariants faithfully"},
-		Gen:         c11Gen,
-		Check:       c11Check,
-		Enumerate:   c11Enumerate,
+		ID:              "C11",
+		WholeCheckLimit: 300 * time.Second,
+		Rule:            "cases = a multiset of boxes bulk-loaded into an R-tree plus 1..8 queries (range/priority/nearest, with a scripted callback that returns nil/Stop/Stop wrapped by %w, by two %w verbs or by errors.Join/custom error at visit k), oracle = linear scan with exact rational box distances (order compared up to 1e-13 relative, the rounding of a float64 squared distance); generated by (a) exhaustive enumeration of sizes 0..40 x 8 layouts x query boxes x every stop position and (b) rapid draws of sizes 0..300 (thorough 0..5000) over 7 layouts x 3 coordinate classes, a third of them mapped to non-dyadic ordinates by one monotone v*s+o; non-trivial = >= 9 items (tree depth >= 2) and, for range queries, >= 2 matching records or a stop with matches remaining; distinct = distinct case hashes",
+		Assumptions:     []string{"linear-scan oracle and math/big rational distances are correct", "rtree.VerifCheck hook (build tag verif) reports structural invariants faithfully"},
+		Gen:             c11Gen,
+		Check:           c11Check,
+		Enumerate:       c11Enumerate,
 	})
 }
